@@ -35,10 +35,7 @@ def escape (s : Str) : Str := s.map (fun c => if c = '"' then '\'' else c)
 
 /-- `performOutputSpecificAdjustments` -/
 def adjust (gs : Bool) (s : Str) : Str :=
-  let v := escape s
-  match v with
-  | '\'' :: _ => if gs then '\'' :: v else v
-  | _ => v
+  if gs && (escape s).head? = some '\'' then '\'' :: escape s else escape s
 
 /-- `fmt.Sprint([]string)` -/
 def sprintOps (ops : List Str) : Str := '[' :: joinWith [' '] ops ++ [']']
